@@ -52,3 +52,38 @@ Definition DK2 (m0 m1 m3 m4 df0 df1 df2 t01 : R) : list R :=
   let N0 := first4 (n0 m0 m3 0) in let N1 := first4 (n1 m1 m4 0) in let N2 := first4 (n2 0 0 1) in
   let N01 := first4 (n01 m0 m1 m3 m4 0 0) in
   addl (addl (addl (scall df0 (outer N0 N0)) (scall df1 (outer N1 N1))) (scall df2 (outer N2 N2))) (scall t01 (outer N01 N01)).
+
+(* ---- identity of symmetric 4th order tensors and orthogonality of the eigenvector matrix (columns = eigenvectors) *)
+Definition Id6 : list R :=
+  [1; 0; 0; 0; 0; 0;  0; 1; 0; 0; 0; 0;  0; 0; 1; 0; 0; 0;  0; 0; 0; 1; 0; 0;  0; 0; 0; 0; 1; 0;  0; 0; 0; 0; 0; 1].
+(* the three eigenvectors (columns of m) are orthonormal *)
+Definition ortho_cols (m0 m1 m2 m3 m4 m5 m6 m7 m8 : R) : Prop :=
+  m0 * m0 + m3 * m3 + m6 * m6 = 1 /\ m1 * m1 + m4 * m4 + m7 * m7 = 1 /\ m2 * m2 + m5 * m5 + m8 * m8 = 1 /\
+  m0 * m1 + m3 * m4 + m6 * m7 = 0 /\ m0 * m2 + m3 * m5 + m6 * m8 = 0 /\ m1 * m2 + m4 * m5 + m7 * m8 = 0.
+
+(* ---- matrix polynomials of a plane symmetric tensor, computed WITHOUT any eigen-decomposition.
+   s = (s0 s1 s2 s3) stands for the matrix [[s0, s3/sqrt2, 0], [s3/sqrt2, s1, 0], [0, 0, s2]]. *)
+Definition mat3 := list R.  (* 9 entries, row major *)
+Definition mat_of_stensor2 (s0 s1 s2 s3 : R) : mat3 := [s0; s3 / sqrt 2; 0;  s3 / sqrt 2; s1; 0;  0; 0; s2].
+Definition mmul (a b : mat3) : mat3 :=
+  match a, b with
+  | [a0; a1; a2; a3; a4; a5; a6; a7; a8], [b0; b1; b2; b3; b4; b5; b6; b7; b8] =>
+      [a0 * b0 + a1 * b3 + a2 * b6; a0 * b1 + a1 * b4 + a2 * b7; a0 * b2 + a1 * b5 + a2 * b8;
+       a3 * b0 + a4 * b3 + a5 * b6; a3 * b1 + a4 * b4 + a5 * b7; a3 * b2 + a4 * b5 + a5 * b8;
+       a6 * b0 + a7 * b3 + a8 * b6; a6 * b1 + a7 * b4 + a8 * b7; a6 * b2 + a7 * b5 + a8 * b8]
+  | _, _ => []
+  end.
+Definition mid3 : mat3 := [1; 0; 0; 0; 1; 0; 0; 0; 1].
+Definition stensor2_of_mat (a : mat3) : list R :=
+  match a with [a0; a1; _; _; a4; _; _; _; a8] => [a0; a4; a8; sqrt 2 * a1] | _ => [] end.
+(* p(A) = c0 I + c1 A + c2 A^2 + c3 A^3 *)
+Definition mpoly3 (c0 c1 c2 c3 : R) (a : mat3) : mat3 :=
+  addl (addl (addl (scall c0 mid3) (scall c1 a)) (scall c2 (mmul a a))) (scall c3 (mmul a (mmul a a))).
+Definition poly3_stensor2 (c0 c1 c2 c3 s0 s1 s2 s3 : R) : list R :=
+  stensor2_of_mat (mpoly3 c0 c1 c2 c3 (mat_of_stensor2 s0 s1 s2 s3)).
+(* the scalar polynomial, its derivative and its divided difference (a polynomial: no division) *)
+Definition p3 (c0 c1 c2 c3 x : R) : R := c0 + c1 * x + c2 * (x * x) + c3 * (x * x * x).
+Definition dp3 (c1 c2 c3 x : R) : R := c1 + 2 * c2 * x + 3 * c3 * (x * x).
+Definition dd3 (c1 c2 c3 x y : R) : R := c1 + c2 * (x + y) + c3 * (x * x + x * y + y * y).
+(* the plane tensor with eigenvalues l0 l1 (in plane, eigenvectors (m0,m3), (m1,m4)) and l2 (out of plane) *)
+Definition stensor2_of_eigen (l0 l1 l2 m0 m1 m3 m4 : R) : list R := first4 (iso_spec m0 m1 0 m3 m4 0 0 0 1 l0 l1 l2).
